@@ -350,6 +350,21 @@ func judgeC16(c c16Case) (v core.Verdict) {
 				v.Failf("%s: Set.Parse stored something in the cache: %v", hist(i), trace)
 				return
 			}
+			if !c.Dev && op.Variant != "text" && m.status[op.Dep] == stCached {
+				// what Parse extends / imports is looked up like any other name: a cached template is used as it is
+				dn := c16Names[op.Dep]
+				for _, e := range loaderEvents() {
+					if strings.HasPrefix(e.Path, dn) && (len(e.Path) == len(dn) || e.Path[len(dn)] == '.') {
+						v.Failf("%s: %s is cached, but Set.Parse of a template that %ss it asked the loader for it: %v", hist(i), dn, op.Variant, loaderEvents())
+						return
+					}
+				}
+				if o.Err != nil {
+					v.Failf("%s: %s is cached, but Set.Parse of a template that %ss it failed: %v", hist(i), dn, op.Variant, o.Err)
+					return
+				}
+				v.Label("parse-referencing-cached-template")
+			}
 			// with the default cache the same claim is checked behaviourally: statuses stay as they are,
 			// so a later lookup of a not-cached name must go to the loader again
 		case "reexec":
